@@ -549,7 +549,16 @@ func (g *genState) heavyScript(tier string) {
 
 func gen(r *core.Rand, tier string) core.Case {
 	g := &genState{r: r, s: newRef(), hist: map[uint32][]bulkArgs{}, lines: []string{"@ C03 rb"}}
-	heavy := r.Chance(28)
+	if tag := g.w3Stream(tier); tag != "" {
+		g.emit("len")
+		g.rep()
+		g.lines = append(g.lines, "iter", "range 0", "all 0")
+		if g.dense {
+			tag += "-dense"
+		}
+		return core.Case{Lines: g.lines, Tag: tag}
+	}
+	heavy := r.Chance(24)
 	if tier == "thorough" {
 		heavy = r.Chance(30)
 	}
